@@ -42,6 +42,7 @@ void cmb_condition_initialize(struct cmb_condition *cvp,
 
     cmi_resourcebase_initialize((struct cmi_resourcebase *)cvp, name);
     cmb_resourceguard_initialize(&(cvp->guard), (struct cmi_resourcebase *)cvp);
+    cvp->guard.evaluate_all = true;
 }
 
 void cmb_condition_terminate(struct cmb_condition *cvp)
